@@ -317,3 +317,25 @@ fn complement_snp(dna: &[char]) -> Vec<char> {
         })
         .collect()
 }
+
+/// Add-only verification hooks: wrappers of the private helpers.
+#[cfg(feature = "verif-hooks")]
+pub mod verif_hooks {
+    use crate::skalo::utils::{DnaSequence, VariantInfo};
+
+    /// `complement_snp`
+    pub fn complement_snp(dna: &[char]) -> Vec<char> {
+        super::complement_snp(dna)
+    }
+
+    /// `get_potential_snp` on (sequence, marked positions) pairs; sorted
+    pub fn get_potential_snp(variants: &[(String, Vec<usize>)]) -> Vec<usize> {
+        let v: Vec<VariantInfo> = variants
+            .iter()
+            .map(|(s, p)| VariantInfo::new(DnaSequence::encode(s), p.clone()))
+            .collect();
+        let mut out: Vec<usize> = super::get_potential_snp(&v).into_iter().collect();
+        out.sort();
+        out
+    }
+}
